@@ -39,6 +39,8 @@ type DeclCfg struct {
 	PHiddenGrp   int
 	PHiddenCmd   int
 	PBase        int
+	PDupIniName  int // % of options in nested groups that reuse the ini-name of an option of an enclosing group
+	PNameless    int // % of options that have neither a short nor a long name (only an ini-name)
 	PInline      int // % of nested struct fields that carry no group tag (their options belong to the enclosing group)
 	PCmdTwin     int // a sibling command is named like the previous one up to case / one trailing character
 	PNamedRest   int // a []string rest positional is declared with the named type StrList
@@ -544,7 +546,53 @@ func (n *namer) genOpt(g *Grp, c *Cmd) *Opt {
 	if r.Chance(cfg.PIniName, 100) {
 		o.IniName = fmt.Sprintf("ini%03d", id)
 	}
+	if g.Owner().Parent != nil && r.Chance(cfg.PDupIniName, 100) {
+		// the same ini-name (possibly in another letter case) as an option of an enclosing group: each is addressed
+		// in its own section; inside the outer section the outer option is the first match
+		var anc []*Opt
+		for pg := g.Owner().Parent; pg != nil; pg = pg.Parent {
+			if pg.Owner() != g.Owner() {
+				for _, x := range pg.Opts {
+					if x.IniName != "" {
+						anc = append(anc, x)
+					}
+				}
+			}
+		}
+		if len(anc) > 0 {
+			cand := anc[r.Intn(len(anc))].IniName
+			// (not twice inside one group: a section could not tell the two apart)
+			free := true
+			var own func(x *Grp)
+			own = func(x *Grp) {
+				for _, xo := range x.Opts {
+					if strings.EqualFold(xo.IniName, cand) {
+						free = false
+					}
+				}
+				for _, sx := range x.Subs {
+					if sx.Inline {
+						own(sx)
+					}
+				}
+			}
+			own(g.Owner())
+			if free {
+				o.IniName = cand
+				if r.Bool() {
+					o.IniName = strings.ToUpper(o.IniName)
+				}
+			}
+		}
+	}
 	o.NoIni = r.Chance(cfg.PNoIni, 100)
+	if r.Chance(cfg.PNameless, 100) && !o.Prog && o.ProgChoicesFrom == 0 {
+		// an option without any flag name: it exists for INI files (and for the required check) only
+		o.Long, o.Short, o.NoIni = "", 0, false
+		if o.IniName == "" {
+			o.IniName = fmt.Sprintf("ini%03d", id)
+		}
+	}
 	return o
 }
 
